@@ -23,6 +23,47 @@ def G(pv, y, case, comp, kw):
     return float(j[0]) / (float(j[0]) + float(j[1]))
 
 
+def solve_law_for_y(mix, case, kw, mode, pf, J, P):
+    """the permeate MASS fraction y at which J_1 = P_1 (pf_1 - pp_1(y)) holds, and at which component 2 then holds too
+    (1e-9); None if there is no such y (then the pair is left to oracle (a)).  Pressure mode: closed form in either
+    basis; temperature mode: secant iteration from the composition of the fluxes."""
+    m1, m2 = mix.first_component.molecular_weight, mix.second_component.molecular_weight
+    yJ = J[0] / (J[0] + J[1])
+
+    def resid(y, basis):
+        if mode[0] == "p":
+            f = y if basis == "weight" else U.exact_to_molar(y, m1, m2)
+            pp = (mode[1] * f, mode[1] * (1 - f))
+        else:
+            q = U.pyvaporation.get_partial_pressures(kw["permeate_temperature"], mix, U.Composition(p=y, type="weight"), case["model"])
+            pp = (float(q[0]), float(q[1]))
+        return [J[i] - P[i] * (pf[i] - pp[i]) for i in (0, 1)]
+
+    best = None
+    for basis in (("weight", "molar") if mode[0] == "p" else ("weight",)):
+        y0, y1 = yJ, min(max(yJ + 1e-4, 1e-9), 1 - 1e-9)
+        try:
+            f0, f1 = resid(y0, basis)[0], resid(y1, basis)[0]
+            for _ in range(60):
+                if f1 == f0:
+                    y1 = yJ  # the law does not depend on y here (e.g. zero permeate pressure): every y satisfies it equally
+                    break
+                y2 = y1 - f1 * (y1 - y0) / (f1 - f0)
+                if not (0.0 <= y2 <= 1.0):
+                    break
+                y0, f0, y1, f1 = y1, f1, y2, resid(y2, basis)[0]
+                if abs(y1 - y0) < 1e-15:
+                    break
+            r = resid(y1, basis)
+        except Exception:  # noqa: BLE001
+            continue
+        scale = [P[i] * (abs(pf[i]) + 1e-300) for i in (0, 1)]
+        if abs(r[0]) <= 1e-9 * scale[0] and abs(r[1]) <= 1e-7 * scale[1]:
+            if best is None or abs(y1 - yJ) < abs(best - yJ):
+                best = y1
+    return best
+
+
 def judge(case):
     mix = U.get_mixture(case["mixture"])
     pv = solver.make_pv(mix)
@@ -40,7 +81,10 @@ def judge(case):
     pf = U.pyvaporation.get_partial_pressures(case["T"], mix, comp, case["model"])
     pf = (float(pf[0]), float(pf[1]))
     ystar = out["y_star"]
-    ys = float(ystar.p)
+    # the composition of fluxes is a MASS fraction; whatever basis the implementation labels its permeate estimate
+    # with is honoured (exact conversion), so a mass fraction merely *labelled* molar shows up as a mismatch
+    ys = U.mass_fraction(ystar, mix)
+    ystar = U.Composition(p=ys, type="weight")
     # (a) driving-force law at y*
     if mode == "vac":
         cands = [(0.0, 0.0)]
@@ -103,12 +147,32 @@ def judge(case):
                 break
             judged_e += 1
             J2 = o2["fluxes"]
-            if not (core.bit_eq(J2[0], J[0] * k) and core.bit_eq(J2[1], J[1] * k) and core.bit_eq(float(o2["y_star"].p), ys)):
+            if not (core.bit_eq(J2[0], J[0] * k) and core.bit_eq(J2[1], J[1] * k) and core.bit_eq(float(o2["y_star"].p), float(out["y_star"].p))):
                 v.append(core.viol("C02/scaling", "permeances x 2^%d: fluxes %r instead of %r, permeate composition %r instead of %r" % (
-                    jexp, J2, (J[0] * k, J[1] * k), float(o2["y_star"].p), ys)))
+                    jexp, J2, (J[0] * k, J[1] * k), float(o2["y_star"].p), float(out["y_star"].p))))
                 break
+    # (f) the same question asked again on the SAME object after a coarser-precision question: the answer must still
+    # satisfy the law at the requested precision (seam-free form of (a)+(d): solve the law for y from the returned
+    # fluxes and compare with the composition of those fluxes)
+    judged_f = 0
+    if not v and mode != "vac" and contract is not None and contract < 0.9:
+        pv2 = solver.make_pv(mix)
+        coarse = max(case["precision"] * 1e3, 1e-2)
+        o_c = solver.solve(pv2, case["T"], comp, P, mode, coarse, case["model"], budget=BUDGET)
+        o_f = solver.solve(pv2, case["T"], comp, P, mode, case["precision"], case["model"], budget=BUDGET)
+        if o_c["status"] == "ok" and o_f["status"] == "ok":
+            Jf = o_f["fluxes"]
+            y_law = solve_law_for_y(mix, case, kw, mode, pf, Jf, P)
+            yJf = Jf[0] / (Jf[0] + Jf[1])
+            if y_law is not None:
+                judged_f = 1
+                if not abs(y_law - yJf) < case["precision"] * (1 + 1e-6) + 1e-12:
+                    v.append(core.viol("C02/self_consistency_after_coarser_call", "asked with precision %r right after the same state was asked with precision %r on the same object: "
+                                       "the returned fluxes satisfy the law at permeate composition %r but their own composition is %r" % (case["precision"], coarse, y_law, yJf)))
+        elif o_f["status"] != "ok" and o_c["status"] == "ok":
+            pass  # raising/looping is C10's business
     return core.result("judged", digest=core.digest_of([core.fhex(J[0]), core.fhex(J[1])]), viol=v,
-                       judged_contractive=judged_d, judged_scalings=judged_e, max_contraction=contract,
+                       judged_contractive=judged_d, judged_scalings=judged_e, judged_sequences=judged_f, max_contraction=contract,
                        max_calls=out["calls"], sample={"J": J, "y_star": ys, "calls": out["calls"], "L": contract})
 
 
